@@ -4,16 +4,21 @@
     topology the configuration loader accepts, any table state, oracle and - except [filter_then_bind] - fault record;
     pairwise-disjoint requested ranges where stated.
 
-    Two of the statements asked for are FALSE for the model, and for the Go code it mirrors; each is kept below in a
-    comment, refuted by a concrete witness ([*_refuted]) and replaced by the strongest true statement found
-    ([*_partial] / [filter_then_bind_noranges] / [filter_then_bind_owned_ranges]):
-    - [bind_routable]: (1) a key that holds TWO IPs while the pod requests no ranges: Filter and Bind each take "the
-      first" IP of the key in Go map order, possibly different ones (reachable: [bind_routable_witness_reachable]);
-      (2) requested ranges, the IPs already held have no common node subnet: Filter drops the empty intersection
-      (`if allocatedSubnets.Len() > 0`), Bind returns them all;
-    - [filter_then_bind]: NodeSubnetsByIPRanges restarts from an EMPTY intersection (`if subnetSet.Len() == 0`), so with
-      three range lists whose first two have no common node subnet Filter answers with the third list's subnets;
-      Bind there fails with "no enough IP" although nothing else happened. *)
+    [bind_routable] as asked for is still FALSE for pods WITHOUT requested ranges whose key holds two IPs (finding K7,
+    open): Filter and Bind each take "the first" IP of the key in Go map order, possibly different ones
+    ([bind_routable_refuted], reachable: [bind_routable_witness_reachable]).  It is proved with the premise
+    [key_single] for such pods ([bind_routable_partial]) and without any extra premise for pods WITH requested ranges
+    ([bind_routable_ranges]).
+
+    Two further defects found by refutation of these statements have been REPAIRED in the Go code, and the model
+    follows the repaired code; the witnesses are kept as statements about the OLD behaviour ([*_old]):
+    - F15 (repaired in Go commit 07fe1a3): requested ranges, the IPs already held have no common node subnet: the
+      pinned Filter dropped the empty intersection (`if allocatedSubnets.Len() > 0`) and Bind returned them all; now
+      the restriction is never dropped and Filter offers no node ([bind_routable_refuted_ranges_old]);
+    - F14 (repaired in Go commit 948e55d): NodeSubnetsByIPRanges restarted from an EMPTY intersection
+      (`if subnetSet.Len() == 0`), so with three range lists whose first two have no common node subnet Filter
+      answered with the third list's subnets and Bind there failed with "no enough IP"; now only the first list
+      initialises the set ([filter_then_bind_refuted_restart_old]). *)
 From Coq Require Import String.
 From stdpp Require Import gmap.
 From Galaxy.Base Require Import Strs.
@@ -24,7 +29,7 @@ Local Open Scope N_scope.
 
 (** * every IP written by a bind on a filter-approved node is routable from that node *)
 
-(* The statement asked for - FALSE, see [bind_routable_refuted] and [bind_routable_refuted_ranges]:
+(* The statement asked for - FALSE for pods without requested ranges, see [bind_routable_refuted] (K7):
    Theorem bind_routable : ∀ w p nodes o fl w1 l ns name uid node o2 fl2 w2 ips nip sn pl,
      WInv w → w_pods w !! (ns, name) = Some p → filter_section w p nodes o fl = (w1, FNodes l) → In node l →
      w_lister w1 !! (ns, name) = Some pl → same_static p pl →
@@ -64,33 +69,49 @@ Print Assumptions bind_routable_witness_reachable.
 
 (** witness [wit2] (pools A on the subnets of node1, node2; B on that of node3 - no common subnet): the pod requests
     the three addresses 10.100.0.3, 10.101.0.2, 10.100.0.4 (pairwise disjoint) and its key holds the first two.
-    Their subnet intersection is empty, Filter then does not restrict at all and offers node1 (10.100.0.4 is free in
-    A); Bind on node1 writes all three, 10.101.0.2 is not routable from node1. *)
-Theorem bind_routable_refuted_ranges :
-  ∃ w p nodes o fl w1 l ns name uid node o2 fl2 w2 ips nip sn pl,
-    WInv w ∧ w_pods w !! (ns, name) = Some p ∧ ranges_disjoint (pd_ranges p) ∧
-    filter_section w p nodes o fl = (w1, FNodes l) ∧ In node l ∧
-    w_lister w1 !! (ns, name) = Some pl ∧ same_static p pl ∧
-    bind_section true true w1 ns name uid node o2 fl2 = (w2, BOk ips) ∧
-    w_nodes w !! node = Some nip ∧ node_subnet (w_ipam w) nip = Some sn ∧
-    ∃ x, x ∈ ips ∧ ip_has_subnet (i_pools (w_ipam w2)) x sn = false.
-Proof. exact bind_routable_refuted_ranges_l. Qed.
-Print Assumptions bind_routable_refuted_ranges.
+    Their subnet intersection [os] is empty.  The pinned Filter ([restrict_old]) then did not restrict at all and kept
+    node1's subnet (10.100.0.4 is free in A) although the held IP 10.101.0.2 is not routable from node1 - Bind on
+    node1 wrote all three (F15).  The repaired restriction ([restrict_subnets _ (Some os)] = [sn_inter _ os]) removes
+    that subnet, and the repaired Filter offers no node. *)
+Theorem bind_routable_refuted_ranges_old :
+  ∃ w p node nip sn x,
+    let i := w_ipam w in
+    let held := owned_in_ranges i p in                                 (* the IPs the key holds in the requested ranges *)
+    let subnets := node_subnets_by_ranges i (missing_ranges i p) in    (* subnets with free IPs for the other range lists *)
+    let os := owned_subnets_of i held in                               (* common node subnets of the held IPs *)
+    WInv w ∧ w_pods w !! pk p = Some p ∧ ranges_disjoint (pd_ranges p) ∧
+    w_nodes w !! node = Some nip ∧ node_subnet i nip = Some sn ∧
+    x ∈ held ∧ os = [] ∧
+    sn ∈ restrict_old subnets os ∧ sn ∉ restrict_subnets subnets (Some os) ∧
+    ip_has_subnet (i_pools i) x sn = false ∧
+    filter_section w p ex_allnodes no_oracle no_faults = (w, FNodes []).
+Proof. exact bind_routable_refuted_ranges_old_l. Qed.
+Print Assumptions bind_routable_refuted_ranges_old.
 
-(** the true statement: it holds whenever (no requested ranges) the pod's key holds at most one IP ([key_single]) and
-    (requested ranges) the IPs the key already holds inside the requested ranges ([owned_in_ranges]) have a common
-    node subnet ([owned_subnets_of] = the intersection Filter computes).  The premise [w_pods w !! (ns, name) = Some p]
-    of the statement asked for is not needed. *)
+(** the true statement: it holds whenever (no requested ranges) the pod's key holds at most one IP ([key_single]);
+    the premise [w_pods w !! (ns, name) = Some p] of the statement asked for is not needed.  For pods with requested
+    ranges nothing extra is needed any more: if the IPs the key already holds inside the requested ranges have no
+    common node subnet, the repaired Filter offers no node. *)
 Theorem bind_routable_partial : ∀ w p nodes o fl w1 l ns name uid node o2 fl2 w2 ips nip sn pl,
   WInv w → filter_section w p nodes o fl = (w1, FNodes l) → In node l →
   w_lister w1 !! (ns, name) = Some pl → same_static p pl →
   (pd_ranges p = [] → key_single (w_ipam w) (pod_key p)) →
-  (pd_ranges p ≠ [] → owned_in_ranges (w_ipam w) p ≠ [] → owned_subnets_of (w_ipam w) (owned_in_ranges (w_ipam w) p) ≠ []) →
   bind_section true true w1 ns name uid node o2 fl2 = (w2, BOk ips) →
   w_nodes w !! node = Some nip → node_subnet (w_ipam w) nip = Some sn →
   ∀ x, x ∈ ips → ip_has_subnet (i_pools (w_ipam w2)) x sn = true.
 Proof. exact bind_routable_w. Qed.
 Print Assumptions bind_routable_partial.
+
+(** ... in particular the statement asked for holds as it stands for every pod with requested ranges *)
+Theorem bind_routable_ranges : ∀ w p nodes o fl w1 l ns name uid node o2 fl2 w2 ips nip sn pl,
+  WInv w → w_pods w !! (ns, name) = Some p → pd_ranges p ≠ [] →
+  filter_section w p nodes o fl = (w1, FNodes l) → In node l →
+  w_lister w1 !! (ns, name) = Some pl → same_static p pl →
+  bind_section true true w1 ns name uid node o2 fl2 = (w2, BOk ips) →
+  w_nodes w !! node = Some nip → node_subnet (w_ipam w) nip = Some sn →
+  ∀ x, x ∈ ips → ip_has_subnet (i_pools (w_ipam w2)) x sn = true.
+Proof. intros * HW _ Hr Hf Hn Hl Hst. by eapply bind_routable_w. Qed.
+Print Assumptions bind_routable_ranges.
 
 (** * mask, gateway, vlan: [ip_info] (Model/PluginInfo.v) of every IP a successful bind writes is that of a pool of the
       loaded configuration that contains the IP; bind does not change the configuration *)
@@ -128,7 +149,7 @@ Print Assumptions fresh_exact.
 
 (** * filter then bind *)
 
-(* The statement asked for - FALSE for pods with requested ranges, see [filter_then_bind_refuted]:
+(* The statement asked for (proved so far in the forms below):
    Theorem filter_then_bind : ∀ w p nodes o fl w1 l ns name node o2 w2 r,
      WInv w → w_pods w !! (ns, name) = Some p → pd_node p = [] → filter_section w p nodes o fl = (w1, FNodes l) → In node l →
      w_lister w1 !! (ns, name) = Some p →
@@ -136,23 +157,26 @@ Print Assumptions fresh_exact.
      (∃ ips, r = BOk ips) ∨ r = BStuck ∨
      (r = BErr ∧ ∃ y ey, i_alloc (w_ipam w1) !! y = Some ey ∧ e_key ey = pod_key p ∧ e_uid ey ≠ [] ∧ e_uid ey ≠ pd_uid p). *)
 
-(** witness [wit3] = the world after process start, creation of the pod and its delivery to the informer
-    ([wit3_reachable]): three pools on the subnets of node1, node2, node3 respectively; the pod requests one address of
-    each (pairwise disjoint, all free).  Filter answers node3; Bind on node3 fails, the table is empty. *)
-Theorem filter_then_bind_refuted :
-  ∃ w p nodes o fl w1 l ns name node o2 w2,
-    WInv w ∧ w_pods w !! (ns, name) = Some p ∧ pd_node p = [] ∧ ranges_disjoint (pd_ranges p) ∧
-    filter_section w p nodes o fl = (w1, FNodes l) ∧ In node l ∧ w_lister w1 !! (ns, name) = Some p ∧
-    bind_section true true w1 ns name (pd_uid p) node o2 no_faults = (w2, BErr) ∧
-    i_alloc (w_ipam w1) = ∅.
-Proof. exact filter_then_bind_refuted_l. Qed.
-Print Assumptions filter_then_bind_refuted.
+(** F14, the OLD behaviour.  Tables of witness [wit3] = the world after process start, creation of the pod and its
+    delivery to the informer ([filter_then_bind_witness_reachable_old]): three pools on the subnets of node1, node2,
+    node3 respectively; the pod requests one address of each (pairwise disjoint, all free).  The pinned
+    NodeSubnetsByIPRanges ([node_subnets_by_ranges_gen true]) approved node3's subnet, from which the allocation of
+    the request is impossible ([pick_ips] = the pick phase of AllocateInSubnetsAndIPRange, which Bind runs): Bind
+    on node3 failed although nothing else had happened.  The repaired intersection does not approve that subnet. *)
+Theorem filter_then_bind_refuted_restart_old :
+  ∃ i rss sn, Inv2 i ∧ ranges_disjoint rss ∧
+    sn ∈ node_subnets_by_ranges_gen true i rss ∧ sn ∉ node_subnets_by_ranges i rss ∧ pick_ips i sn rss [] = None.
+Proof. exact filter_then_bind_refuted_restart_old_l. Qed.
+Print Assumptions filter_then_bind_refuted_restart_old.
 
-Theorem filter_then_bind_witness_reachable :
+(** those tables are reachable, and the repaired Filter offers no node there *)
+Theorem filter_then_bind_witness_reachable_old :
   prun (pstep (world0 false ex_nodes) (PIpam (OConfigure ex_conf3 false []))).1
-       [PEnv (EPodPut wit3_pod); PEnv (EInformer (pk wit3_pod))] = wit3.
-Proof. exact wit3_reachable. Qed.
-Print Assumptions filter_then_bind_witness_reachable.
+       [PEnv (EPodPut wit3_pod); PEnv (EInformer (pk wit3_pod))] = wit3 ∧
+  WInv wit3 ∧ w_pods wit3 !! pk wit3_pod = Some wit3_pod ∧
+  filter_section wit3 wit3_pod ex_allnodes no_oracle no_faults = (wit3, FNodes []).
+Proof. split; [exact wit3_reachable|exact wit3_filter_now]. Qed.
+Print Assumptions filter_then_bind_witness_reachable_old.
 
 (** the statement is true for pods without requested ranges: with no injected fault, the informer showing the pod,
     the pod still pending in the API server, bind on a filter-approved node succeeds - or the oracle given is not one
@@ -181,7 +205,7 @@ Proof. exact filter_then_bind_owned_l. Qed.
 Print Assumptions filter_then_bind_owned_ranges.
 
 (** ... and, more generally, whenever at most ONE requested range list has no IP of the key yet ([missing_ranges]):
-    the reset in NodeSubnetsByIPRanges needs three such lists, overlapping needs two *)
+    overlapping needs two *)
 Theorem filter_then_bind_partial : ∀ w p nodes o fl w1 l ns name node o2 w2 r,
   WInv w → w_pods w !! (ns, name) = Some p → pd_node p = [] →
   (pd_ranges p = [] ∨ List.length (missing_ranges (w_ipam w) p) ≤ 1)%nat →
